@@ -79,7 +79,7 @@ let () =
           match String.index_opt t '=' with
           | Some i ->
             let ty = String.sub t 0 i and ws = String.sub t (i + 1) (String.length t - i - 1) in
-            (aty_of ty, List.map z_of_hex (String.split_on_char ',' ws))
+            (aty_of ty, if ws = "" then [] else List.map z_of_hex (String.split_on_char ',' ws))
           | None -> (aty_of t, [])) atoks in
         let args = List.map fst parsed in
         let (locs, st) = assign args in
